@@ -127,6 +127,7 @@ func runAsync(ac acase) (fails, stalls []string, infra string, idleHits int) {
 	var wakesIssued, wakeCBs, writeIssued, writeCBs, execIssued, execRuns []int32
 	wakesIssued, wakeCBs = make([]int32, ac.Conns), make([]int32, ac.Conns)
 	writeIssued, writeCBs = make([]int32, ac.Conns), make([]int32, ac.Conns)
+	emptyIssued, emptyCBs := make([]int32, ac.Conns), make([]int32, ac.Conns)
 	execIssued, execRuns = make([]int32, 1), make([]int32, 1)
 	var wg sync.WaitGroup
 	for wi, w := range ac.Workers {
@@ -188,6 +189,36 @@ func runAsync(ac acase) (fails, stalls []string, infra string, idleHits int) {
 						seq[ci]++
 						atomic.AddInt32(&writeIssued[ci], 1)
 					}
+				case "asyncwrite-empty":
+					// nothing to send is still a request: its callback is owed exactly once
+					var calls int32
+					cb := func(_ gnet.Conn, err error) error {
+						onLoop("AsyncWrite(empty)")
+						if err != nil {
+							failf("async-err", "an empty asynchronous write on open conn%d completed with %v", ci, err)
+						}
+						if atomic.AddInt32(&calls, 1) > 1 {
+							failf("async-twice", "the callback of an empty asynchronous write on conn%d ran twice", ci)
+						}
+						atomic.AddInt32(&emptyCBs[ci], 1)
+						return nil
+					}
+					var err error
+					switch (wi + int(atomic.LoadInt32(&emptyIssued[ci]))) % 5 {
+					case 0:
+						err = c.gc.AsyncWrite(nil, cb)
+					case 1:
+						err = c.gc.AsyncWrite([]byte{}, cb)
+					case 2:
+						err = c.gc.AsyncWritev(nil, cb)
+					case 3:
+						err = c.gc.AsyncWritev([][]byte{}, cb)
+					default:
+						err = c.gc.AsyncWritev([][]byte{{}, nil}, cb)
+					}
+					if err == nil {
+						atomic.AddInt32(&emptyIssued[ci], 1)
+					}
 				case "execute":
 					var calls int32
 					if err := c.gc.EventLoop().Execute(context.Background(), gnet.RunnableFunc(func(context.Context) error {
@@ -208,7 +239,7 @@ func runAsync(ac acase) (fails, stalls []string, infra string, idleHits int) {
 	// every accepted request is carried out without any further event
 	settled := func() bool {
 		for i := range conns {
-			if atomic.LoadInt32(&wakeCBs[i]) != atomic.LoadInt32(&wakesIssued[i]) || atomic.LoadInt32(&writeCBs[i]) != atomic.LoadInt32(&writeIssued[i]) {
+			if atomic.LoadInt32(&wakeCBs[i]) != atomic.LoadInt32(&wakesIssued[i]) || atomic.LoadInt32(&writeCBs[i]) != atomic.LoadInt32(&writeIssued[i]) || atomic.LoadInt32(&emptyCBs[i]) != atomic.LoadInt32(&emptyIssued[i]) {
 				return false
 			}
 			mu.Lock()
@@ -230,7 +261,7 @@ func runAsync(ac acase) (fails, stalls []string, infra string, idleHits int) {
 			mu.Lock()
 			n := len(got[i])
 			mu.Unlock()
-			parts = append(parts, fmt.Sprintf("conn%d: wakes %d/%d writes cb %d/%d arrived %d", i, wakeCBs[i], wakesIssued[i], writeCBs[i], writeIssued[i], n))
+			parts = append(parts, fmt.Sprintf("conn%d: wakes %d/%d writes cb %d/%d arrived %d, empty writes cb %d/%d", i, wakeCBs[i], wakesIssued[i], writeCBs[i], writeIssued[i], n, emptyCBs[i], emptyIssued[i]))
 		}
 		stalls = append(stalls, fmt.Sprintf("VERIF-KEY:async-lost accepted requests were not carried out within %v on an otherwise idle engine (runnables %d/%d; %s)", stall, execRuns[0], execIssued[0], strings.Join(parts, "; ")))
 	}
@@ -289,7 +320,7 @@ func TestC03AsyncEngine(t *testing.T) {
 			var w []areq
 			for j := 0; j < n; j++ {
 				w = append(w, areq{
-					Kind:  rapid.SampledFrom([]string{"wake", "asyncwrite", "asyncwrite", "asyncwritev", "execute"}).Draw(t, "kind"),
+					Kind:  rapid.SampledFrom([]string{"wake", "asyncwrite", "asyncwrite", "asyncwritev", "execute", "asyncwrite-empty"}).Draw(t, "kind"),
 					Conn:  rapid.IntRange(0, ac.Conns-1).Draw(t, "conn"),
 					Pause: rapid.SampledFrom([]int{0, 0, 0, 5, 50, 300, 2000}).Draw(t, "pauseUs"),
 				})
